@@ -1,7 +1,262 @@
-(* C16 -- adding implicit hydrogens only completes valences (work in progress) *)
-From Coq Require Import List ZArith NArith QArith Qround Bool.
-From Molli Require Import Common.HExpr Gen.Valence Gen.HaddExpr Model.Hadd Proofs.Hadd.
+(* C16 -- adding implicit hydrogens only completes valences.
 
-Theorem C16_count_expr : forall v : henv, denote v hs_expr = count_spec v.
+   Property theorems only.  Model: Model/Hadd.v (the definitions the correspondence shards evaluate on every
+   run); proofs: Proofs/Hadd.v.  Ties: Gen/Valence.v (T: element table incl. the default selection observed by
+   running the routine, IMPLICIT_VALENCE / VALENCE_ELECTRONS, Bond.order, TETRAHEDRON, defaults of Atom("H") and
+   Bond(a, h)), Gen/HaddExpr.v (S: the count expression), harness/c16.py (H).
+
+   The model describes the code AFTER three repairs made in this round (each one `fix:` commit in /repo):
+     - an isolated atom (no neighbour): the mean of an empty set gave NaN positions       -> fixed direction
+     - a count of four had no branch (methane carbon received nothing)                   -> all four vertices
+     - two hydrogens on an atom whose only bond lies along z: zero cross product, NaN    -> least aligned axis
+
+   Reading guide (hmol = atoms / bonds / coordinate rows; targets are positions of atoms):
+     count_of bonds i a     hydrogens the routine decides to add to atom a at position i   (None: it raises)
+     n_added k              hydrogens actually placed for a count k: k for 1..4, none otherwise
+     place tet a nb L k w   their coordinates; w carries |vec|, |z|, the mean-plane normal, the vector used by
+                            the antiparallel branch of rotation_matrix_from_vectors
+     hadd m ts ws           the whole call on targets ts                                                     *)
+From Coq Require Import String.
+From Coq Require Import List ZArith NArith QArith Qround Bool Reals.
+From Molli Require Import Common.Field3 Common.Field3R Common.HExpr Gen.Valence Gen.HaddExpr Model.Hadd Proofs.Hadd.
+From Molli Require Model.MolEdit Proofs.MolEdit.
+Import ListNotations.
+Local Open Scope nat_scope.
+
+(* ====================================================================== the count *)
+(* tie S: the arithmetic extracted from the source denotes the formula of the property for ALL integer
+   valence-electron counts, charges and spins and ALL rational bonded valences *)
+Theorem C16_count_expr : forall v : henv,
+  denote v hs_expr
+  = Z.max 0 (4 - Z.abs (4 - (v_ve v - v_fc v - Z.abs (v_spin v))) - Qceiling (v_bv v))%Z.
 Proof. exact hs_expr_is_spec. Qed.
 Print Assumptions C16_count_expr.
+
+(* ... and the loop body has the shape `hs = hint if there is one else <that expression>; if hs > 0: place` *)
+Theorem C16_hint_structure : hint_overrides = true /\ guard_positive = true /\ hint_key = "__implicit_hydrogens"%string.
+Proof. repeat split. Qed.
+Print Assumptions C16_hint_structure.
+
+(* tie T, decided by the kernel on the regenerated tables *)
+Theorem C16_table_elements : elements_ok = true.
+Proof. vm_compute. reflexivity. Qed.
+Print Assumptions C16_table_elements.
+Theorem C16_table_implicit_valence : iv_ok = true.
+Proof. vm_compute. reflexivity. Qed.
+Print Assumptions C16_table_implicit_valence.
+Theorem C16_table_orders : orders_ok = true.
+Proof. vm_compute. reflexivity. Qed.
+Print Assumptions C16_table_orders.
+Theorem C16_table_tetrahedron : tet_ok tetrahedron = true.
+Proof. vm_compute. reflexivity. Qed.
+Print Assumptions C16_table_tetrahedron.
+(* a new hydrogen is a plain H (no charge, no spin, no hint), its bond a single bond of order 1 *)
+Theorem C16_new_hydrogen_is_plain :
+  h_atom = mkHA 1%N 0%Z 0%Z None 1%N /\ forall i j, new_bond i j = mkHB i j 1%N 1%Q /\ order_of (new_bond i j) = 1%Q.
+Proof. split; [reflexivity | intros; split; reflexivity]. Qed.
+Print Assumptions C16_new_hydrogen_is_plain.
+
+(* the default selection is exactly the main-group elements of groups 13-16 *)
+Theorem C16_default_selection : forall z,
+  el_sel z = true <-> exists gz, el_group z = Some gz /\ (13 <= gz <= 16)%Z /\ el_row z <> None.
+Proof. intro z. exact (selected_iff_main_group z C16_table_elements). Qed.
+Print Assumptions C16_default_selection.
+
+(* every such atom receives exactly the number its hint states or, without a hint,
+   max(0, 4 - |4 - (valence electrons - formal charge - |spin|)| - ceil(bonded valence)), valence electrons = group - 10 *)
+Theorem C16_count : forall bonds i a, el_sel (ha_el a) = true ->
+  exists gz, el_group (ha_el a) = Some gz /\ (13 <= gz <= 16)%Z /\
+    count_of bonds i a =
+      Some (match ha_hint a with
+            | Some h => h
+            | None => Z.max 0 (4 - Z.abs (4 - ((gz - 10) - ha_fc a - Z.abs (ha_spin a))) - Qceiling (bonded_valence bonds i))
+            end).
+Proof. intros bonds i a. exact (count_is_spec bonds i a C16_table_elements). Qed.
+Print Assumptions C16_count.
+
+(* ====================================================================== only adds; number added = count *)
+(* For every molecule, every list of distinct targets and every choice of witnesses: the old atoms stay (only the
+   hints of the targets are consumed), the old bonds and coordinate rows are prefixes of the new lists, every new
+   atom is a plain hydrogen, new bond number j joins a TARGET to new hydrogen number j (so each new hydrogen is
+   bonded exactly once), and each target receives n_added (its count in the molecule as it was before the call). *)
+Theorem C16_only_adds_number_added : forall (F : Type) (o : Fops F) (m m' : hmol F) ts ws,
+  (forall t, In t ts -> t < length (hm_atoms m)) -> NoDup ts ->
+  hadd o m ts ws = Some m' ->
+  exists A' nbs ps,
+    hm_atoms m' = A' ++ repeat h_atom (length nbs) /\
+    length A' = length (hm_atoms m) /\ map clear_hint A' = map clear_hint (hm_atoms m) /\
+    (forall j, ~ In j ts -> nth_error A' j = nth_error (hm_atoms m) j) /\
+    (forall j, In j ts -> nth_error A' j = option_map clear_hint (nth_error (hm_atoms m) j)) /\
+    hm_bonds m' = hm_bonds m ++ nbs /\
+    map hb_a2 nbs = seq (length (hm_atoms m)) (length nbs) /\
+    Forall (fun b => In (hb_a1 b) ts /\ b = new_bond (hb_a1 b) (hb_a2 b)) nbs /\
+    hm_xyz m' = hm_xyz m ++ ps /\ length ps = length nbs /\
+    (forall t a, In t ts -> nth_error (hm_atoms m) t = Some a ->
+       exists k, count_of (hm_bonds m) t a = Some k /\ added_to t nbs = n_added k).
+Proof. exact @hadd_main. Qed.
+Print Assumptions C16_only_adds_number_added.
+
+(* n_added k = k exactly on 0..4.  For k >= 5 (reachable only through a hint; the formula is <= 4 when no bond
+   order is negative) nothing is placed: outside the property's domain "hints 0..4", stated here. *)
+Theorem C16_n_added : forall k, (0 <= k <= 4)%Z -> Z.of_nat (n_added k) = k.
+Proof. exact n_added_exact. Qed.
+Print Assumptions C16_n_added.
+
+(* ====================================================================== idempotence *)
+(* hint-free molecule, no negative bond order, default selection: after the call the default selection is the
+   same set of atoms and every one of them has count 0 -- a second call adds nothing *)
+Theorem C16_idempotent : forall (F : Type) (o : Fops F) (m m' : hmol F) ws,
+  (forall a, In a (hm_atoms m) -> ha_hint a = None) ->
+  (forall b, In b (hm_bonds m) -> (0 <= order_of b)%Q) ->
+  hadd o m (default_targets (hm_atoms m)) ws = Some m' ->
+  default_targets (hm_atoms m') = default_targets (hm_atoms m) /\
+  forall t a', In t (default_targets (hm_atoms m')) -> nth_error (hm_atoms m') t = Some a' ->
+    count_of (hm_bonds m') t a' = Some 0%Z.
+Proof. exact @hadd_idempotent. Qed.
+Print Assumptions C16_idempotent.
+(* the hypothesis on bond orders holds whenever no FractionalOrder bond has a negative f_order *)
+Theorem C16_order_nonneg : forall b : hbond, (0 <= hb_fo b)%Q -> (0 <= order_of b)%Q.
+Proof. intro b. exact (order_nonneg b C16_table_orders). Qed.
+Print Assumptions C16_order_nonneg.
+
+(* ====================================================================== geometry over R *)
+Local Open Scope R_scope.
+
+(* one hydrogen, any number of neighbours: exactly at distance L; with v the (un-normalised) direction towards
+   the neighbours and n = |v|:  (h - a) . c = - L n  for every c with v . c = |v|^2  (c = centroid - atom, below) *)
+Theorem C16_dist1 : forall (tet : list vecR) (a : vecR) (nb : list vecR) (L : R) (w : wit R),
+  let v := hvec_raw ROps a nb (w_nrm w) in
+  0 < w_n w -> w_n w * w_n w = norm2 ROps v ->
+  exists h, place ROps tet a nb L 1 w = [h] /\ dist2 ROps h a = L * L /\
+            forall c, towards v c -> dot ROps (vsub ROps h a) c = - L * w_n w.
+Proof. exact place_one. Qed.
+Print Assumptions C16_dist1.
+
+(* two hydrogens: NOT at L.  |h - a|^2 = L^2 (0.5736^2 + 0.8192^2) = 1.0001056 L^2, i.e. |h - a| = 1.0000528 L:
+   the two constants are cos/sin of 55 degrees rounded to four digits.  Decision against the property text
+   ("at the sum of covalent radii"): accepted, the deviation is 5.3e-5 relative (0.06 mA for a C-H bond), below
+   the 1e-4 the oracle allows; C16_dist2_tolerance states the bound. *)
+Theorem C16_dist2 : forall (tet : list vecR) (a : vecR) (nb : list vecR) (L : R) (w : wit R),
+  let v := hvec_raw ROps a nb (w_nrm w) in
+  let z := zdir ROps a nb (vdiv ROps v (w_n w)) in
+  0 < w_n w -> w_n w * w_n w = norm2 ROps v -> 0 < w_nz w -> w_nz w * w_nz w = norm2 ROps z ->
+  exists h1 h2, place ROps tet a nb L 2 w = [h1; h2] /\
+    forall h, h = h1 \/ h = h2 ->
+      dist2 ROps h a = L * L * (10001056 / 10000000) /\ dot ROps (vsub ROps h a) v = - L * (5736 / 10000) * w_n w.
+Proof. exact place_two. Qed.
+Print Assumptions C16_dist2.
+Theorem C16_dist2_tolerance : forall d2 L : R, 0 < L -> d2 = L * L * (10001056 / 10000000) ->
+  L * L < d2 /\ d2 < (L * (1 + 6 / 100000)) * (L * (1 + 6 / 100000)).
+Proof. exact two_h_distance_tolerance. Qed.
+Print Assumptions C16_dist2_tolerance.
+
+(* three / four hydrogens on the TABULATED tetrahedron: the rotation is proper (Proofs/Rot.v), so distances are
+   L |row|, rows are unit to 1e-8; for three hydrogens (rows 1-3) the component along v is <= -0.33 L *)
+Theorem C16_dist3 : forall (a : vecR) (nb : list vecR) (L : R) (hs : Z) (w : wit R),
+  let v := hvec_raw ROps a nb (w_nrm w) in
+  (hs = 3 \/ hs = 4)%Z -> 0 <= L ->
+  0 < w_n w -> w_n w * w_n w = norm2 ROps v ->
+  unit (w_ov w) -> dot ROps (w_ov w) (vdiv ROps v (w_n w)) = 0 ->
+  length (place ROps (tetF ROps) a nb L hs w) = Z.to_nat hs /\
+  Forall (fun h => L * L * (1 - 1 / 100000000) <= dist2 ROps h a <= L * L * (1 + 1 / 100000000))
+         (place ROps (tetF ROps) a nb L hs w) /\
+  (hs = 3%Z -> Forall (fun h => dot ROps (vsub ROps h a) v <= - (33 / 100) * L * w_n w)
+                      (place ROps (tetF ROps) a nb L hs w)).
+Proof. intros a nb L hs w. exact (place_tet_table a nb L hs w C16_table_tetrahedron). Qed.
+Print Assumptions C16_dist3.
+
+(* pointing away from the centroid of the existing neighbours: 1, 2 or >= 4 neighbours (the direction is the mean
+   of the neighbour vectors), 1-3 hydrogens ... *)
+Theorem C16_away : forall (a : vecR) (nb : list vecR) (L : R) (k : Z) (w : wit R),
+  avg_branch nb -> 0 < L -> (k = 1 \/ k = 2 \/ k = 3)%Z ->
+  let c := vsub ROps (centroid ROps nb) a in
+  0 < w_n w -> w_n w * w_n w = norm2 ROps c ->
+  (k = 2%Z -> 0 < w_nz w /\ w_nz w * w_nz w = norm2 ROps (zdir ROps a nb (vdiv ROps c (w_n w)))) ->
+  (k = 3%Z -> unit (w_ov w) /\ dot ROps (w_ov w) (vdiv ROps c (w_n w)) = 0) ->
+  Forall (fun h => dot ROps (vsub ROps h a) c < 0) (place ROps (tetF ROps) a nb L k w).
+Proof. intros a nb L k w. exact (placement_away_avg a nb L k w C16_table_tetrahedron). Qed.
+Print Assumptions C16_away.
+
+(* ... and three neighbours with the atom off their plane (|align| > 0.05; mean_plane enters through its unit
+   normal only).  In the plane (|align| <= 0.05) the hydrogen is put along the normal, whose sign is the SVD's:
+   that case is outside "non-degenerate geometry" and no direction is claimed. *)
+Theorem C16_away_three : forall (a p1 p2 p3 : vecR) (L : R) (w : wit R),
+  0 < L -> unit (w_nrm w) ->
+  let c := vsub ROps (centroid ROps [p1; p2; p3]) a in
+  abs_le ROps (dot ROps (w_nrm w) c) (c_align ROps) = false ->
+  let v := hvec_raw ROps a [p1; p2; p3] (w_nrm w) in
+  0 < w_n w -> w_n w * w_n w = norm2 ROps v ->
+  forall tet, exists h, place ROps tet a [p1; p2; p3] L 1 w = [h] /\ dist2 ROps h a = L * L /\ dot ROps (vsub ROps h a) c < 0.
+Proof. exact placement_away_three. Qed.
+Print Assumptions C16_away_three.
+
+(* finite coordinates = nothing is divided by zero: the norms the routine divides by are positive exactly when
+   the geometry is not degenerate (centroid of the neighbours off the atom; two neighbours not collinear with it).
+   The isolated atom and the single bond along a coordinate axis -- the two NaN defects -- are covered. *)
+Theorem C16_defined_direction : forall (a nrm : vecR) (nb : list vecR), unit nrm ->
+  (avg_branch nb -> centroid ROps nb <> a) ->
+  exists n, 0 < n /\ n * n = norm2 ROps (hvec_raw ROps a nb nrm).
+Proof. intros a nrm nb U H. apply witness_exists. exact (hvec_nonzero a nrm nb U H). Qed.
+Print Assumptions C16_defined_direction.
+Theorem C16_defined_second_direction : forall (a : vecR) (nb : list vecR) (u : vecR), unit u ->
+  (forall p1 p2, nb = [p1; p2] -> cross ROps (vsub ROps p1 a) (vsub ROps p2 a) <> vzero ROps) ->
+  exists nz, 0 < nz /\ nz * nz = norm2 ROps (zdir ROps a nb u).
+Proof. intros a nb u U H. apply witness_exists. exact (zdir_nonzero a nb u U H). Qed.
+Print Assumptions C16_defined_second_direction.
+Theorem C16_least_axis : forall u : vecR, unit u -> 2 / 3 <= norm2 ROps (cross ROps u (least_axis ROps u)).
+Proof. exact least_axis_cross_nonzero. Qed.
+Print Assumptions C16_least_axis.
+
+(* ====================================================================== "only adds" on C05's model of the same routine *)
+(* C05's theorems, instantiated (not re-proved) at its AddHs operation: invariant kept, old atoms keep row and charge *)
+Theorem C16_only_adds_c05_frame : forall s l s', Proofs.MolEdit.Inv s ->
+  (MolEdit.step s (MolEdit.AddHs l) = MolEdit.Ok s' \/ MolEdit.step s (MolEdit.AddHs l) = MolEdit.Err s') ->
+  Proofs.MolEdit.Inv s' /\
+  (forall y, In y (MolEdit.ids s) -> In y (MolEdit.ids s') -> MolEdit.row_of s' y = MolEdit.row_of s y) /\
+  (forall y, In y (MolEdit.ids s') -> In y (MolEdit.ids s) \/ (MolEdit.next_a s <= y)%positive).
+Proof. exact C05link.add_hs_c05_frame. Qed.
+Print Assumptions C16_only_adds_c05_frame.
+(* ... and what they leave open: the old lists are prefixes, new atoms are H with fresh names, new bonds join a
+   target to a new hydrogen, new charges are 0 -- also when the call raises half-way *)
+Theorem C16_only_adds_c05_shape : forall s l s',
+  (MolEdit.step s (MolEdit.AddHs l) = MolEdit.Ok s' \/ MolEdit.step s (MolEdit.AddHs l) = MolEdit.Err s') ->
+  C05link.OnlyAdds (map fst l) s s'.
+Proof. exact C05link.add_hs_only_adds. Qed.
+Print Assumptions C16_only_adds_c05_shape.
+
+(* ====================================================================== non-vacuity *)
+Local Open Scope Q_scope.
+(* ethanol skeleton C-C-O with exact coordinates and a lone silicon: 3 + 2 + 1 + 4 hydrogens; the
+   hypotheses of C16_only_adds_number_added and C16_idempotent hold and the model runs *)
+Definition ex_atoms : list hatom :=
+  [mkHA 6 0 0 None 1; mkHA 6 0 0 None 1; mkHA 8 0 0 None 1; mkHA 14 0 0 None 1; mkHA 26 0 0 None 1].
+Definition ex_bonds : list hbond := [mkHB 0 1 1 1; mkHB 1 2 1 1].
+Definition ex_xyz : list vecQ := [(0, 0, 0); (3 # 2, 0, 0); (2, 5 # 4, 0); (5, 5, 5); (9, 9, 9)].
+Definition ex_w (n nz : Q) : wit Q := mkWit Q true n nz (0, 1, 0) (0, 0, 1).
+Definition ex_ws : list (wit Q) :=
+  [ex_w (3 # 2) 1; ex_w (33 # 32) (33 # 32); ex_w (29 # 20) 1; ex_w 1 1].     (* rough witnesses: only counts matter here *)
+Example C16_nonvacuous :
+  default_targets ex_atoms = [0; 1; 2; 3]%nat /\
+  map (fun t => match nth_error ex_atoms t with Some a => count_of ex_bonds t a | None => None end) [0; 1; 2; 3; 4]%nat
+    = [Some 3; Some 2; Some 1; Some 4; None]%Z /\
+  match hadd QOps (mkHM ex_atoms ex_bonds ex_xyz) (default_targets ex_atoms) ex_ws with
+  | Some m' => length (hm_atoms m') = 15%nat /\ length (hm_bonds m') = 12%nat /\ length (hm_xyz m') = 15%nat /\
+               default_targets (hm_atoms m') = [0; 1; 2; 3]%nat /\
+               map (fun t => match nth_error (hm_atoms m') t with Some a => count_of (hm_bonds m') t a | None => None end)
+                   [0; 1; 2; 3]%nat = [Some 0; Some 0; Some 0; Some 0]%Z
+  | None => False
+  end.
+Proof. vm_compute. repeat split. Qed.
+
+(* the geometric hypotheses are satisfiable: one neighbour at distance 3/2 along x *)
+Local Open Scope R_scope.
+Example C16_geometry_nonvacuous :
+  let a : vecR := (0, 0, 0) in let nb : list vecR := [(3 / 2, 0, 0)] in
+  let w := mkWit R true (3 / 2) 1 (0, 1, 0) (0, 0, 1) in
+  avg_branch nb /\ 0 < w_n w /\ w_n w * w_n w = norm2 ROps (vsub ROps (centroid ROps nb) a) /\
+  unit (w_ov w) /\ dot ROps (w_ov w) (vdiv ROps (vsub ROps (centroid ROps nb) a) (w_n w)) = 0.
+Proof.
+  cbv zeta. split; [split; [discriminate | cbn; discriminate]|].
+  cbv [w_n w_ov centroid vsum fold_right length fnat unit]. f3. cbn [fofZ ROps Z.of_nat Pos.of_succ_nat].
+  repeat split; lra.
+Qed.
